@@ -678,6 +678,14 @@ func vxProcess(e *etree.Element) *etree.Element {
 			}
 		}
 	}
+	// position of the signature holder among the children (its marker must not be part of the signed content)
+	holderIdx := -1
+	for i, c := range e.Child {
+		if h, ok := c.(*etree.Element); ok && h.SelectAttr("vx-sigholder") != nil {
+			h.RemoveAttr("vx-sigholder")
+			holderIdx = i
+		}
+	}
 	var out *etree.Element
 	switch sig {
 	case "valid":
@@ -693,13 +701,11 @@ func vxProcess(e *etree.Element) *etree.Element {
 	}
 	// a signature holder (vx-sigholder) receives the enveloped Signature: signed while the holder is empty,
 	// then moved inside it — the enveloped-signature transform removes it again wherever it sits
-	for _, c := range out.Child {
-		if h, ok := c.(*etree.Element); ok && h.SelectAttr("vx-sigholder") != nil {
-			h.RemoveAttr("vx-sigholder")
+	if holderIdx >= 0 && holderIdx < len(out.Child)-1 {
+		if h, ok := out.Child[holderIdx].(*etree.Element); ok {
 			sigEl := out.Child[len(out.Child)-1].(*etree.Element)
 			out.RemoveChildAt(len(out.Child) - 1)
 			h.AddChild(sigEl)
-			break
 		}
 	}
 	return out
